@@ -26,7 +26,7 @@ PARAMS = {0: [], 1: ["SMT[0]", "SMT[1]", "SMT[2]", "SMT[3]", "AppEff", "MaxIrr"]
 ALLP = ["SMT[0]", "SMT[1]", "SMT[2]", "SMT[3]", "AppEff", "MaxIrr", "IrrInterval", "Schedule[3]", "depth"]
 
 
-@harness("irrigation", modules=["aquacrop.solution.irrigation"], props=["C04", "C06", "C13", "C16", "C20"], configs=_configs,
+@harness("irrigation", modules=["aquacrop.solution.irrigation"], props=["C04", "C06", "C12", "C13", "C16", "C20"], configs=_configs,
          goals=["irrigation-applied", "season-cap-binds"])
 def h_irrigation(ctx, cfg):
     method, gs, stage = cfg["method"], cfg["gs"], cfg["stage"]
@@ -69,7 +69,14 @@ def h_irrigation(ctx, cfg):
         with stubbed({"aquacrop.solution.irrigation": {"root_zone_water": rzw}}):
             return M.irrigation(method, smt2, g("AppEff", eff), g("MaxIrr", maxirr), g("IrrInterval", interval), sc2, g("depth", depth),
                                 maxseason, stage, irr_cum, e_pot, t_pot, zroot, th, dap, tsc, crop, prof, 0.1, gs, rain, runoff)
+    sched_snapshot = list(sched)
+    smt_snapshot = list(smt)
     depl, taw, cum2, irr = M_out = call()
+    # second execution on the very arrays of the harness (call() hands the function copies): frame clause for the schedule / thresholds
+    with stubbed({"aquacrop.solution.irrigation": {"root_zone_water": rzw}}):
+        M.irrigation(method, smt, eff, maxirr, interval, sched, depth, maxseason, stage, irr_cum, e_pot, t_pot, zroot, th, dap, tsc, crop, prof, 0.1, gs, rain, runoff)
+    ctx.prove("C12:irrigation() does not write the schedule or the thresholds it is given",
+              And(*[a is b or a == b for a, b in zip(list(sched), sched_snapshot)], *[a is b or a == b for a, b in zip(list(smt), smt_snapshot)]))
     ctx.out("Irr", irr); ctx.out("irr_cum", cum2); ctx.out("depletion", depl); ctx.out("taw", taw)
     ctx.prove("C04,C13:Irr>=0", irr >= 0)
     ctx.prove("C06,C13:irr_cum'=irr_cum+Irr in season, 0 outside", approx(cum2, (irr_cum + irr) if gs else 0, 1e-9))
